@@ -419,16 +419,16 @@ theorem qOk_view (cfg : Cfg) {hosts : List String} {w : World} (g : Good hosts w
     | cons a l => simp
   unfold qOk
   rw [view_active, g.active, frozen_view g]
-  unfold Gen.SwitchHelper.CheckFailoverQuorum
   by_cases hs : cfg.semiSync = true
   · have hw' := hw hs
     have : ¬ ((hosts.length : Int) < Gen.SwitchHelper.GetFailoverQuorum (sh cfg) hosts) := by
-      simp only [Gen.SwitchHelper.GetFailoverQuorum, Gen.SwitchHelper.GetRequiredWaitSlaveCount, sh]
+      simp only [QuorumSpec.quorum_spec, QuorumSpec.req_spec, sh]
       exact quorum_le _ _ _ (by omega) hw' (by omega)
     have hsh : (sh cfg).SemiSync = true := hs
-    simp [hsh, this]
-  · have hsh : (sh cfg).SemiSync = false := by simpa [sh] using hs
-    simp [hsh]
+    rw [QuorumSpec.check_isNone, if_pos hsh]
+    omega
+  · have hsh : ¬ (sh cfg).SemiSync = true := hs
+    rw [QuorumSpec.check_isNone, if_neg hsh]
     omega
 
 /-- … and fails for a negative wait count under semi-sync -/
@@ -436,12 +436,14 @@ theorem qOk_view_neg (cfg : Cfg) {hosts : List String} {w : World} (g : Good hos
     (hs : cfg.semiSync = true) (hw : cfg.waitCount < 0) : qOk cfg (view w (req t)) = false := by
   unfold qOk
   rw [view_active, g.active, frozen_view g]
-  unfold Gen.SwitchHelper.CheckFailoverQuorum
   have : ((hosts.length : Int) < Gen.SwitchHelper.GetFailoverQuorum (sh cfg) hosts) := by
-    simp only [Gen.SwitchHelper.GetFailoverQuorum, Gen.SwitchHelper.GetRequiredWaitSlaveCount, sh]
+    simp only [QuorumSpec.quorum_spec, QuorumSpec.req_spec, sh]
     exact quorum_gt _ _ _ hw
   have hsh : (sh cfg).SemiSync = true := hs
-  simp [hsh, this]
+  have hn : ¬ ((Gen.SwitchHelper.CheckFailoverQuorum (sh cfg) hosts (hosts.length : Int)).isNone = true) := by
+    rw [QuorumSpec.check_isNone, if_pos hsh]
+    omega
+  exact Bool.eq_false_iff.mpr hn
 
 /-! ### the effect of the closed form -/
 
